@@ -101,6 +101,27 @@ func (y *yieldAst) CallCombine(s1, s2 *ast.BlockStmt) *ast.CallExpr {
 	)
 }
 
+// isSeqCall reports whether call is a call of one of the named seq functions
+func (y *yieldAst) isSeqCall(call *ast.CallExpr, names ...string) bool {
+	fun := call.Fun
+	if idx, ok := fun.(*ast.IndexExpr); ok {
+		fun = idx.X
+	}
+	sel, ok := fun.(*ast.SelectorExpr)
+	if !ok {
+		return false
+	}
+	if pkg, ok := sel.X.(*ast.Ident); !ok || pkg.Name != y.seqImportedName {
+		return false
+	}
+	for _, name := range names {
+		if sel.Sel.Name == name {
+			return true
+		}
+	}
+	return false
+}
+
 func (y *yieldAst) CallFor(cond, post, body ast.Expr) *ast.CallExpr {
 	if isNil(cond) && isNil(post) {
 		return y.SeqCall(cstLoop, body)
